@@ -53,12 +53,10 @@ def set_path(obj, path, v):
 
 
 def pending(res, tree) -> bool:
-    """definitions in the territory of a pending finding are not evaluated"""
+    """no definition is skipped any more: a union of anonymous structures with a nested anonymous member (found by these probes)
+    is known finding F44 and is classified by its signature (structprops.Engine.sigs)"""
     if union_anon_nested(tree):
-        if False:  # PENDING-FINDING: union of anonymous structures with a nested anonymous member loses that member's fields on dump
-            return False  # (see structprops.union_anon_nested for the reproduction)
-        res.feat("skipped definition (pending finding: nested anonymous member in an all-anonymous union)")
-        return True
+        res.feat("definition in the territory of known finding F44 (nested anonymous member in an all-anonymous union)")
     return False
 
 
@@ -200,35 +198,18 @@ def mixed_alignment(eng, res, rnd, tier):
         mis = s1_mixed.misplaced_aligned(T)
         res.feat("mixed-align:instances")
         res.feat("mixed-align:" + ("aligned-in-packed at a misaligned or dynamic offset" if mis else "every aligned structure at an aligned offset"))
-        if any(under_union or s1_mixed.has_bitfields(t) for t, under_union in mis):
-            if False:  # PENDING-FINDING (same root cause as the one below)
-                # Inside a structure defined with align=True that sits at a position that is not a multiple of its alignment,
-                # (a) the writer pads before a bit-field unit of enum type by absolute stream position, the reader does not:
-                #   cs.load('enum E : uint16 { A = 1 }; struct N1 { uint8 x; E f5 : 6; E f6 : 10; };', align=True)
-                #   cs.load('struct T { uint8 p; N1 n; };'); cs.T(bytes(range(1, 31))).dumps() == 01 02 00 00 04 05 (unit moved)
-                # (b) a union reads its members from a sub-buffer (position 0) but writes them at the real stream position:
-                #   cs.load('struct N1 { uint16 a; uint64 b; };', align=True)
-                #   cs.load('union U { N1 n; uint8 raw[16]; }; struct T { uint16 p; U u; uint16 q; };')  -> dumps 26 bytes, not 20
-                pass
-            else:
-                res.feat("mixed-align:skipped (misplaced aligned structure with bit-fields or inside a union: pending finding)")
-                continue
         top_align = plan[-1][2]
         sigs = s1_mixed.sigs_mixed(tree2, top_align, ptr, endian)
+        if mis:
+            # a structure defined with align=True at a position that is not a multiple of its alignment: reader and writer align its
+            # tail (and the writer its bit-field units / union members) by the ABSOLUTE stream position, past the declared end, and then
+            # disagree about where the next member is. Found by this probe; known finding F43 (classified, not skipped).
+            sigs = sigs + ["F43"]
         L.ty_sexp = lambda tree2=tree2, T=T, top_align=top_align: s1_mixed.mixed_ty_sexp(tree2, T, top_align)  # per-node align flags
 
         def no_overshoot(obj):
             if s1_mixed.overshoot(obj):
-                if False:  # PENDING-FINDING
-                    # An aligned structure S (align=True) nested in a packed one at an offset that is not a multiple of
-                    # S.alignment, with less tail padding than the misalignment: reader and writer align S's tail by the
-                    # ABSOLUTE stream position and run past S's declared end; the writer then puts the following member
-                    # later than the offset where the reader looks for it, so parse(dumps(v)) != v.  Minimal case:
-                    #   cs.load('struct N1 { uint16 a; uint64 b; };', align=True); cs.load('struct T { uint16 p; N1 n; uint16 q; };')
-                    #   v = cs.T(bytes(range(1, 31))); len(v.dumps()) == 26 != 20; cs.T(v.dumps()).q == 0 != v.q
-                    return True
-                res.feat("mixed-align:skipped input (tail alignment past the declared size: pending finding)")
-                return False
+                res.feat("mixed-align:input on which an aligned structure's tail alignment runs past its declared size (F43 territory)")
             return True
 
         size = T.size if T.size is not None else 48
